@@ -153,11 +153,24 @@ def decBlockTxs (m : Mode) (t : Cbor) : Option Val :=
   | some [_, _, _, _] => decVal m (.struct [.uint 8, .point, .map (.uint 16) (.uint 64), .list .raw]) t
   | _ => none
 
+/-- leios-votes `MsgVote` = `[1, [slot, eb-hash(32), voter, signature(48)]]`; `LeiosVote.UnmarshalCBOR`
+    decodes the toarray struct and then insists on a 48-byte BLS signature -/
+def decVote (m : Mode) (t : Cbor) : Ans :=
+  match structItems m t with
+  | some [_, vote] =>
+    if m.null && isNull (if m.tags then stripTags vote else vote) then .unknown else
+    (match decVal m (.struct [.uint 8, .struct [.uint 64, .fixed 32, .uint 64, .bytes]]) t with
+     | some (.s [ty, .s [sl, hh, vo, .h sig]]) =>
+       if sig.length = 48 then .val (.s [ty, .s [sl, hh, vo, .h sig]]) else .rej
+     | _ => .rej)
+  | _ => .rej
+
 /-- messages modelled here instead of by a regenerated shape -/
 def special (name : String) : Option (Mode → Cbor → Ans) :=
   if name == "RollForwardNtC" then some (fun m t => .ofOption (decRollForwardNtC m t))
   else if name == "RollForwardNtN" then some (fun m t => .ofOption (decRollForwardNtN m t))
   else if name == "SubmitTx" then some decSubmitTx
+  else if name == "Vote" then some decVote
   else if name == "BlockTxs" then some (fun m t => .ofOption (decBlockTxs m t))
   else if name == "ReplyNextTx" then some (fun m t => .ofOption (decReplyNextTx false m t))
   else none
